@@ -224,6 +224,69 @@ theorem keepTop_keeps_highest [LinearOrder V] (k : Nat) (l : List (Peak α V)) :
       (keepTop (some k) l ++ dropped k l).Perm l :=
   ⟨rfl, rfl, (topk_keeps_highest k l).1, (topk_keeps_highest k l).2.1⟩
 
+/-! ### network mode -/
+
+/-- **forward_mode_eval**: a wrapper that forces eval mode runs the network in eval mode whatever
+mode its caller left it in (its call history), so every frame's output is the eval-mode output for
+ANY batch statistics `s₀` — batch-mates, batch size and order play no role — and the weights
+(running statistics) are left untouched: the next forward sees the same network. -/
+theorem forward_mode_eval {W S F O : Type} (net : Net W S F O) (stats : List F → S) (cur : Mode) (w : W)
+    (batch : List F) (s₀ : S) :
+    netForward net stats true cur w batch = (batch.map (net.run Mode.eval w s₀), w) := by
+  simp only [netForward, modeOf, if_true]
+  congr 1
+  apply List.map_congr_left
+  intro f _
+  exact net.eval_indep w _ _ f
+
+/-- consequently the frame-wise output list is a homomorphism for `++`, i.e. a frame in a batch gets
+what it gets alone, for every call history; this is what makes `Frame.peaks` (the detections of a
+frame) a function of the frame, the standing assumption of the per-frame theorems above -/
+theorem forward_mode_eval_append {W S F O : Type} (net : Net W S F O) (stats : List F → S) (cur cur' cur'' : Mode)
+    (w : W) (b₁ b₂ : List F) :
+    (netForward net stats true cur w (b₁ ++ b₂)).1
+      = (netForward net stats true cur' w b₁).1 ++ (netForward net stats true cur'' w b₂).1 := by
+  rw [forward_mode_eval net stats cur w (b₁ ++ b₂) (stats []), forward_mode_eval net stats cur' w b₁ (stats []),
+    forward_mode_eval net stats cur'' w b₂ (stats [])]
+  simp
+
+/-- top-down, composed: detections taken in forced eval mode + the crop plumbing = per-frame map,
+for every history `cur` and every batch -/
+theorem topdown_mode_per_frame {W S F : Type} [LT V] [DecidableLT V]
+    (net : Net W S F (List (Peak α V))) (stats : List F → S) (cur : Mode) (w : W) (mi : Option Nat)
+    (idx : F → ι × ι × E) (batch : List F) (s₀ : S) :
+    centroidCrop mi (((netForward net stats true cur w batch).1.zip batch).map
+        fun (pk, f) => ({ fidx := (idx f).1, vidx := (idx f).2.1, eff := (idx f).2.2, peaks := pk } : Frame α V ι E))
+      = batch.filterMap fun f =>
+          frameGroup mi { fidx := (idx f).1, vidx := (idx f).2.1, eff := (idx f).2.2,
+                          peaks := net.run Mode.eval w s₀ f } := by
+  have hz : ∀ (g : F → List (Peak α V)) (l : List F), (l.map g).zip l = l.map (fun f => (g f, f)) := by
+    intro g l
+    induction l with
+    | nil => rfl
+    | cons x xs ih => simp [ih]
+  rw [centroidcrop_per_frame, forward_mode_eval net stats cur w batch s₀]
+  simp only [hz, List.map_map, List.filterMap_map, Function.comp_def]
+
+/-- the repaired wrappers all force eval mode; as coded only top-down does -/
+theorem forcesEval_fixed (k : Kind) : forcesEvalFixed k = true := rfl
+theorem forcesEval_asIs_topdown : forcesEvalAsIs .topdown = true := rfl
+
+/-- **as coded the property is false for single-instance and bottom-up** (F-C12): without forcing
+eval mode a network left in train mode gives a frame a different output in a batch than alone, and
+predicting moves the weights.  Witness: `run train w σ f = f + σ`, `σ` = batch sum, batch `[1, 2]`. -/
+theorem forward_mode_asIs_counterexample :
+    let net : Net Nat Nat Nat Nat :=
+      { run := fun m _ s f => match m with | Mode.eval => f | Mode.train => f + s
+        update := fun w s => w + s
+        eval_indep := fun _ _ _ _ => rfl }
+    forcesEvalAsIs .single = false ∧ forcesEvalAsIs .bottomup = false ∧
+    (netForward net List.sum (forcesEvalAsIs .single) Mode.train 0 [1, 2]).1 = [4, 5] ∧
+    (netForward net List.sum (forcesEvalAsIs .single) Mode.train 0 [1]).1 = [2] ∧
+    (netForward net List.sum (forcesEvalAsIs .single) Mode.train 0 [1, 2]).2 = 3 ∧
+    (netForward net List.sum (forcesEvalFixed .single) Mode.train 0 [1, 2]) = ([1, 2], 0) := by
+  decide
+
 /-! ### non-vacuity / concrete instances -/
 
 /-- three frames (2, 0, 3 detections), no limit: the batch-wide padding (to 3 rows) leaves no trace,
